@@ -28,13 +28,12 @@ values of both operands.
 from __future__ import annotations
 
 import ast
-from fractions import Fraction
 
 from . import e2_formula as F
 from .core import Unsupported
 from .e1_srcmodel import dotted
 from .e2_eval import AutoEvaluator, Unknown, is_unknown, need
-from .sem import Sem, unfn
+from .sem import Sem, unfn  # noqa: F401  (unfn re-exported for the rule modules)
 
 NONE = F.sym("None")
 ALL = F.sym("<all rows>")
@@ -197,7 +196,8 @@ class Ev01(AutoEvaluator):
         self.cmp_hook = None     # (node, L, R, ev) -> True / False / None for ordering comparisons that are not between constants
         self.cmp_log = []        # (node, L, R, result)
         self._recorded = None
-        self._nhist = 0
+        self.raised = None       # the `raise` statement that ended the evaluated path, if any
+        self.hists = []          # history arrays created by the evaluated code itself (np.zeros / np.empty with nt columns), shared with helpers
 
     # ---- configuration inherited by the evaluator of an inlined helper
     def spawn(self, fn, env):
@@ -208,7 +208,7 @@ class Ev01(AutoEvaluator):
             sub.module_consts = self.module_consts
         sub.depth = self.depth + 1
         sub.seq = self.seq
-        sub._nhist = self._nhist + 100
+        sub.hists = self.hists
         return sub
 
     # ------------------------------------------------------------------------------------------------ tests
@@ -348,22 +348,30 @@ class Ev01(AutoEvaluator):
                 v = self.env.get(d)
                 if has_ref(v):
                     return v
+                rootv = self.env.get(d.split(".")[0])
+                if not has_ref(rootv) and not isinstance(rootv, tuple) and not (node.attr == "T" and not self.erase_T):
+                    return super()._ev(node)             # a plain dotted chain: the shared evaluator's reading
+            b = self._evr(node.value)                      # evaluated once (calls inside are recorded once)
+            if is_unknown(b):
+                return b
+            if isinstance(b, (Hist, Block)):
+                b = self.plain(b) if node.attr != "T" else b
+            if node.attr == "T" and isinstance(b, (tuple,) + REFS):
+                return b
+            if isinstance(b, tuple) and not has_ref(b):
+                if node.attr in ("real", "imag"):
+                    return tuple(x if is_unknown(x) else (F.fn("attr:" + node.attr, need(x)) if not isinstance(x, tuple) else Unknown("nested")) for x in b)
+                if node.attr == "shape":
+                    return (F.sym("<rows>"), F.const(len(b)))
+                if node.attr == "ndim":
+                    return F.const(2)
+            if isinstance(b, Box):
+                b = b.v
+            if not isinstance(b, F.Rat):
+                return Unknown(f"attribute {node.attr} of {type(b).__name__}")
             if node.attr == "T":
-                b = self._evr(node.value)
-                if isinstance(b, (tuple,) + REFS):
-                    return b
-                if is_unknown(b):
-                    return b
-                return b if self.erase_T else F.fn("attr:T", need(b))
-            if node.attr in ("real", "imag", "shape", "size", "ndim"):
-                r = self.array_attr(node)
-                if r is not NotImplemented:
-                    return r
-            if d is None:
-                b = self._evr(node.value)
-                if isinstance(b, DictV) or is_unknown(b):
-                    return b if is_unknown(b) else Unknown("attribute of a dict")
-            return super()._ev(node)
+                return b if self.erase_T else F.fn("attr:T", b)
+            return F.fn("attr:" + node.attr, b)
         if isinstance(node, ast.NamedExpr) and isinstance(node.target, ast.Name):
             v = self._evr(node.value)
             self._assign(node.target, v, node)
@@ -439,19 +447,6 @@ class Ev01(AutoEvaluator):
                 v = tuple(self.plain(x) for x in v)
             return v
         return super()._ev(node)
-
-    def array_attr(self, node):
-        b = self._evr(node.value)
-        if isinstance(b, (Hist, Block)):
-            b = self.plain(b)
-        if isinstance(b, tuple) and not has_ref(b):
-            if node.attr in ("real", "imag"):
-                return tuple(x if is_unknown(x) else (F.fn("attr:" + node.attr, need(x)) if not isinstance(x, tuple) else Unknown("nested")) for x in b)
-            if node.attr == "shape":
-                return (F.sym("<rows>"), F.const(len(b)))
-            if node.attr == "ndim":
-                return F.const(2)
-        return NotImplemented
 
     def key_of(self, v):
         s = as_str(v)
@@ -741,6 +736,10 @@ class Ev01(AutoEvaluator):
             raise _Continue()
         if isinstance(st, ast.Break):
             raise _Break()
+        if isinstance(st, ast.Raise):
+            self.raised = st           # the path ends here
+            self.done = True
+            return
         if isinstance(st, ast.Assign):
             v = self.evr(st.value)
             for t in st.targets:
@@ -984,8 +983,9 @@ class Ev01(AutoEvaluator):
         if d in ("np.zeros", "np.empty") and self.nt is not None and args and isinstance(args[0], (ast.Tuple, ast.List)) and len(args[0].elts) == 2:
             c = const_of(self.ev(args[0].elts[1]))
             if c is not None and c == self.nt:
-                self._nhist += 1
-                return Hist(f"<new{self._nhist}>", self.nt, F.const(0) if d == "np.zeros" else None)
+                H = Hist(f"<new{len(self.hists) + 1}>", self.nt, F.const(0) if d == "np.zeros" else None)
+                self.hists.append(H)
+                return H
         return NotImplemented
 
     def inline_call(self, node, name, fn):
@@ -1028,6 +1028,9 @@ class Ev01(AutoEvaluator):
             return Unknown(f"continue / break outside a loop in {name}")
         except RecursionError:
             return Unknown(f"recursion in {name}")
+        if sub.raised is not None:
+            self.raised = sub.raised
+            self.done = True
         self.calls.extend(sub.calls)
         self.call_seq.extend(sub.call_seq)
         self.cells.extend(sub.cells)
